@@ -193,8 +193,12 @@ Inductive expect :=
 | XFailed (idx : nat) (st : stage) (cls : string)
 | XCFailed (idx : nat) (cls : string).
 
+(* A division with a non-integer quotient leaves the model's value universe (Z): the model then stops with the
+   pseudo-error "OutOfModel" and the case is not comparable (the harness drops such cases when it can see the value;
+   it cannot when the run fails at a later node). *)
 Definition outcome_matches (o : outcome) (x : expect) : bool :=
   match o, x with
+  | Failed _ (Err SProcessor "OutOfModel" _), _ => true
   | Done (d, c), XDone d' c' => data_eqb d d' && ctx_eqb c c'
   | Failed i (Err st cls _), XFailed j st' cls' => Nat.eqb i j && stage_eqb st st' && String.eqb cls cls'
   | CFailed i (Err _ cls _), XCFailed j cls' => Nat.eqb i j && String.eqb cls cls'
